@@ -1,3 +1,5 @@
 import HpoProps.C12
 import HpoProps.C20
 import HpoProps.C01
+import HpoProps.C02
+import HpoProps.C15
